@@ -172,6 +172,17 @@ Definition dispatch (H : oracle) (fn : list Z) (args : list val) : val :=
     | [VB prev; VL hs] =>
         match vals_bytes hs with Some l => VB (cfheader_chain (o_hash256 H) prev l) | None => bad_args end
     | _ => bad_args end
+  else if fn_is "cf_new" fn then
+    (* CompactFilter(key, hashes) called directly (any order, duplicates): [f, serialize(), hash(), membership] *)
+    match args with
+    | [VB key; VL hashes; VL raws] =>
+        match vals_ints hashes, vals_bytes raws with
+        | Some l, Some q =>
+            let cf := cf_new key l in
+            VL [VI (cf_f cf); vres_b (cf_serialize cf); vres_b (cf_hash (o_hash256 H) cf);
+                VL (map (fun r => vres_bool (cf_contains siphash cf r)) q)]
+        | _, _ => bad_args end
+    | _ => bad_args end
   (* ---- BIP158 transcription (Spec/Bip158.v): streaming writer / reader, gcs_match ---- *)
   else if fn_is "bip158_spec" fn then
     match args with
